@@ -487,6 +487,34 @@ type buf struct {
 func newBuf(f *os.File) *buf { return &buf{f, bufio.NewWriterSize(f, 1<<20)} }
 func (b *buf) close()        { b.w.Flush(); b.f.Close() }
 
+// deterministic enumeration (thorough tier): every year 0000..9999 around the end of February and
+// of the year, and every month 00..13 x day 00..32 for a spread of years
+func enumDates() []string {
+	var out []string
+	for y := 0; y <= 9999; y++ {
+		out = append(out, iso(y, 2, 29, 0, 0, 0), iso(y, 3, 1, 0, 0, 0), iso(y, 12, 31, 23, 59, 59))
+	}
+	ys := append([]int{}, specialYears...)
+	for y := 3; y <= 9999; y += 97 {
+		ys = append(ys, y)
+	}
+	for _, y := range ys {
+		for mo := 0; mo <= 13; mo++ {
+			for d := 0; d <= 32; d++ {
+				out = append(out, iso(y, mo, d, 12, 0, 0))
+			}
+		}
+	}
+	for h := 0; h <= 25; h++ {
+		for mi := 0; mi <= 61; mi++ {
+			for se := 0; se <= 61; se++ {
+				out = append(out, iso(2031, 7, 15, h, mi, se))
+			}
+		}
+	}
+	return out
+}
+
 func hx(s string) string {
 	if s == "" {
 		return "-"
@@ -520,15 +548,23 @@ func main() {
 			ins[k] = newBuf(f)
 		}
 		r := lib.NewRng(lib.Seed())
+		var enum []string
+		if os.Getenv("VERIF_TIER") == "thorough" {
+			enum = enumDates()
+		}
+		total := n + len(corpus) + len(enum)
 		id := 0
 		emit := func(c gcase) {
 			impl, lo, hi := runImpl(c.s)
 			fmt.Fprintf(bw.w, "%d\t%s\t%s\t%d\t%d\t%s\t%s\t%s\n", id, c.klass, hx(c.s), lo, hi, impl, runParse(c.s), oracle(c.s, lo, hi))
-			fmt.Fprintf(ins[id*shards/(n+len(corpus))].w, "%s %d %d\n", hx(c.s), lo, hi)
+			fmt.Fprintf(ins[id*shards/total].w, "%s %d %d\n", hx(c.s), lo, hi)
 			id++
 		}
 		for _, s := range corpus {
 			emit(gcase{"corpus", s})
+		}
+		for _, s := range enum {
+			emit(gcase{"enumerated", s})
 		}
 		for i := 0; i < n; i++ {
 			emit(genOne(r.Fork()))
